@@ -263,6 +263,8 @@ def main():
 
     # 7. classification
     out_lines, nviol = [], 0
+    if os.environ.get("VERIF_DUMP_FAILURES"):       # development aid: every failure, not only the first of each kind
+        json.dump(cx.failures, open(os.environ["VERIF_DUMP_FAILURES"], "w"), default=str)
     for fid, f in cx.known_seen.items():
         out_lines.append("KNOWN-FINDING: property=%s %s %s" % (prop, fid, f.get("what", "")))
     seen_keys = set()
